@@ -1227,7 +1227,22 @@ class LuaASTEchoWriter(BaseLuaWriter):
 
         Yields:
           Lines of Lua code.
+
+        Raises:
+          ParserError: The parser stopped before the end of the code, so the
+            AST does not cover all of it.
         """
+        # (The parser does not insist on reaching the end of the input.
+        # Writing the AST of a partially parsed program would silently drop
+        # the rest of the code.)
+        if self._root is not None:
+            for tok in self._tokens[self._root.end_pos:]:
+                if not (isinstance(tok, lexer.TokSpace) or
+                        isinstance(tok, lexer.TokNewline) or
+                        isinstance(tok, lexer.TokComment)):
+                    raise parser.ParserError(
+                        'Could not parse the code from here on', token=tok)
+
         self._pos = 0
 
         linebuf = []
